@@ -125,6 +125,11 @@ class Runner(object):
         return len(set(id(r()) for r in self.refs if r() is not None))
 
     def op(self, op: str, arg: Any) -> Dict[str, Any]:
+        from .common import Watchdog
+        with Watchdog(60):
+            return self._op(op, arg)
+
+    def _op(self, op: str, arg: Any) -> Dict[str, Any]:
         from dds.structures import DDSException
         out: Dict[str, Any] = {}
         self.nops += 1
